@@ -30,7 +30,8 @@ func (b *packetAccumulator) add(p *Packet) (ps []*Packet) {
 	}
 
 	// Empty buffer if we detect a discontinuity
-	if hasDiscontinuity(mps, p) {
+	// A discontinuity that is only signalled, the counter being continuous, on a packet starting a new payload leaves the previous payload whole
+	if hasDiscontinuity(mps, p) && (!p.Header.PayloadUnitStartIndicator || hasCounterDiscontinuity(mps, p)) {
 		// Reset current slice or make new
 		if cap(mps) > 0 {
 			mps = mps[:0]
@@ -119,9 +120,14 @@ func (b *packetPool) dumpUnlocked() (ps []*Packet) {
 
 // hasDiscontinuity checks whether a packet is discontinuous with a set of packets
 func hasDiscontinuity(ps []*Packet, p *Packet) bool {
+	return (p.Header.HasAdaptationField && p.AdaptationField.DiscontinuityIndicator) || hasCounterDiscontinuity(ps, p)
+}
+
+// hasCounterDiscontinuity checks whether the continuity counter of a packet does not follow the one of a set of packets
+func hasCounterDiscontinuity(ps []*Packet, p *Packet) bool {
 	l := len(ps)
-	return (p.Header.HasAdaptationField && p.AdaptationField.DiscontinuityIndicator) || (l > 0 && ((p.Header.HasPayload && p.Header.ContinuityCounter != (ps[l-1].Header.ContinuityCounter+1)%16) ||
-		(!p.Header.HasPayload && p.Header.ContinuityCounter != ps[l-1].Header.ContinuityCounter)))
+	return l > 0 && ((p.Header.HasPayload && p.Header.ContinuityCounter != (ps[l-1].Header.ContinuityCounter+1)%16) ||
+		(!p.Header.HasPayload && p.Header.ContinuityCounter != ps[l-1].Header.ContinuityCounter))
 }
 
 // isSameAsPrevious checks whether a packet is the same as the last packet of a set of packets
